@@ -25,7 +25,7 @@ CHECKS = {
  'C11': e1('Every list of the grid is evaluated on every behaviour of a dyadic lattice (on, inside and outside every boundary), with unassigned and extra variables; is_empty on every small list and on thin systems; consistency with refines on all pairs.', 'DESIGN.md 4/C11'),
  'C12': e1('Every contract of the grids (infeasible, bounded, unbounded; dense 3-variable systems where the LP presolve misreports) x 9 objectives x both directions and get_variable_bounds is compared with the exact rational LP answer.', 'DESIGN.md 4/C12'),
  'C13': ('model_checking', 'explicit-state exploration of operation histories on the real library: every operation x every argument tuple of a growing pool, state fingerprints (modules, grammar graph, pool with identity partition), every transition compared with the same call in a process forked from a pristine interpreter',
-         'Each worker is one long session executing its shard of all (operation, argument tuple) transitions over a typed pool into which results are fed back (construction depth 2-3), followed by a history in which every ordered pair of operation kinds is adjacent. After every transition the hidden state (all pacti module/class-level objects, pyparsing grammar graph) and every pool member must be unchanged, the result must be identity-disjoint from operands and globals, and must equal bit for bit the result of the same call in a fresh interpreter. Because the reachable hidden state closes to the initial one, the verdict extends by induction to histories of any length over the explored pool.',
+         'Each worker is one long session executing its shard of all (operation, argument tuple) transitions over a typed pool into which results are fed back (construction depth 2-3), followed by a history in which every ordered pair of operation kinds is adjacent. After every transition every pool member (operands, option lists) must be unchanged, the result must be identity-disjoint from its operands, and must equal bit for bit the result of the same call in a fresh interpreter; the hidden state (all pacti module/class-level objects, pyparsing grammar graph) is fingerprinted too: when it never changes (closed_hidden_states = 1 in the evidence, as on the current tree) the reachable hidden state is the initial one and the verdict extends by induction to histories of any length over the explored pool; a change of hidden state alone is counted, not reported.',
          MC_NOTE + '; third-party caches are only observed behaviourally (fresh-process comparison)', 'DESIGN.md 4/C13'),
  'C14': ('fault_enumeration', 'exhaustive single-field fault enumeration of valid contract dictionaries / files against a reference validator, plus exhaustive adversarial grids through every public operation with exception classification and operand snapshots',
          'Every JSON path x {delete, null, bool, int, float, string, list, dict} of valid dictionaries in both representations is fed to validate_contract_dict, from_dict and the file reader and judged by an independent three-valued reference validator; an adversarial grid (empty, variable-free, cancelling, infeasible, unbounded, degenerate) through every public operation under every tactic configuration classifies every exception against the documented set and re-checks operands and repeatability; the generators of eight other checks are re-run in classify-only mode.',
